@@ -1,18 +1,20 @@
 (* Executable instance of Model/SweepRKN.v over Qc with X := nat, used by the correspondence check
    (harness/c02_rkn.py): the REAL RungeKuttaNystrom classes run on the real particles / fields /
    acceleration data types holding fractions.Fraction entries, on the problem family
-       eval_f(u,t):   elec_x = lamE[x]*pos_x + kE[x]*vel_x + cE[x]*t ,   magn_x = bB[x] + cB[x]*t
-       build_f(f,u,t): acc_x = f.elec_x + g[x]*u.vel_x*f.magn_x + d[x]*t
-       boris_solver(c,dt,fo,fn,u0): vel_x = u0.vel_x + dt*(fo.elec_x/4 + 3*fn.elec_x/4) + c_x
+       eval_f(u,t):   elec_x = u.q_x*(lamE[x]*pos_x + kE[x]*vel_x) + u.m_x*cE[x]*t ,   magn_x = bB[x] + cB[x]*t
+       build_f(f,u,t): acc_x = (u.q_x/u.m_x)*(f.elec_x + g[x]*u.vel_x*f.magn_x) + d[x]*t
+       boris_solver(c,dt,fo,fn,u0): vel_x = u0.vel_x + (u0.q_x/u0.m_x)*dt*(fo.elec_x/4 + 3*fn.elec_x/4) + c_x
                                             + s[x]*dt*u0.vel_x*(fo.magn_x - 2*fn.magn_x) + r[x]*dt*u0.pos_x
-   (deliberately sensitive to every argument, to both times the sweeper passes and to the order of
-   the field arguments), and the kernel compares every observable exactly. *)
+   (deliberately sensitive to every argument — including the charge q and mass m the particle OBJECT handed over
+   carries —, to both times the sweeper passes and to the order of the field arguments), and the kernel compares
+   every observable exactly. *)
 From Coq Require Import List Arith Bool ZArith QArith Qcanon.
 From PySDC Require Import Model.Sweep Model.SweepExec Model.SweepRKN.
 Import ListNotations.
 Local Open Scope Qc_scope.
 
 Record qfld := { elec : nat -> Qc; magn : nat -> Qc }.
+Record qattr := { aq : nat -> Qc; am : nat -> Qc }.       (* particles.q, particles.m *)
 
 Record rkncase := {
   k_M : nat; k_dt : Qc; k_t0 : Qc;
@@ -23,35 +25,39 @@ Record rkncase := {
   k_lamE : list Qc; k_kE : list Qc; k_cE : list Qc; k_bB : list Qc; k_cB : list Qc;
   k_g : list Qc; k_d : list Qc; k_s : list Qc; k_r : list Qc;
   k_p : list (list Qc); k_v : list (list Qc);      (* positions / velocities of nodes 0..M *)
+  k_q : list (list Qc); k_m : list (list Qc);      (* charges / masses of the particle objects in nodes 0..M *)
   k_fe : list (list Qc); k_fm : list (list Qc);    (* fields of nodes 0..M *)
 }.
 
 Section RunRKN.
   Variable C : rkncase.
   Let d := k_dim C.
-  Definition rkn_feval (p v : nat -> Qc) (t : Qc) : qfld :=
-    {| elec := memo d (fun x => nthq (k_lamE C) x * p x + nthq (k_kE C) x * v x + nthq (k_cE C) x * t);
+  Definition rkn_feval (a : qattr) (p v : nat -> Qc) (t : Qc) : qfld :=
+    {| elec := memo d (fun x => aq a x * (nthq (k_lamE C) x * p x + nthq (k_kE C) x * v x) + am a x * nthq (k_cE C) x * t);
        magn := memo d (fun x => nthq (k_bB C) x + nthq (k_cB C) x * t) |}.
-  Definition rkn_build_f (f : qfld) (p v : nat -> Qc) (t : Qc) : nat -> Qc :=
-    memo d (fun x => elec f x + nthq (k_g C) x * v x * magn f x + nthq (k_d C) x * t).
-  Definition rkn_boris (c : nat -> Qc) (dt : Qc) (fo fn : qfld) (p0 v0 : nat -> Qc) : nat -> Qc :=
-    memo d (fun x => v0 x + dt * (elec fo x * q 1 4 + elec fn x * q 3 4) + c x
+  Definition rkn_build_f (f : qfld) (a : qattr) (p v : nat -> Qc) (t : Qc) : nat -> Qc :=
+    memo d (fun x => (aq a x / am a x) * (elec f x + nthq (k_g C) x * v x * magn f x) + nthq (k_d C) x * t).
+  Definition rkn_boris (c : nat -> Qc) (dt : Qc) (fo fn : qfld) (a : qattr) (p0 v0 : nat -> Qc) : nat -> Qc :=
+    memo d (fun x => v0 x + (aq a x / am a x) * dt * (elec fo x * q 1 4 + elec fn x * q 3 4) + c x
                      + nthq (k_s C) x * dt * v0 x * (magn fo x - q 2 1 * magn fn x) + nthq (k_r C) x * dt * p0 x).
 
-  Definition run_rkn_state : @rkn_st Qc nat qfld :=
+  Definition run_rkn_state : @rkn_st Qc nat qfld qattr :=
     rkn_update 0 Qcplus Qcmult (k_M C) (k_dt C) (k_t0 C) (nthq (k_nodes C)) (mat (k_QI C)) (mat (k_Qx C)) (k_impl C)
                rkn_feval rkn_build_f rkn_boris
-               {| rp := nodevec_of (k_p C); rv := nodevec_of (k_v C);
+               {| ra := fun m => {| aq := nodevec_of (k_q C) m; am := nodevec_of (k_m C) m |};
+                  rp := nodevec_of (k_p C); rv := nodevec_of (k_v C);
                   rf := fun m => {| elec := nodevec_of (k_fe C) m; magn := nodevec_of (k_fm C) m |} |}.
 
-  (* observables: new positions [1..M], velocities [1..M], fields [0..M] (elec, magn), uend (pos, vel) *)
+  (* observables: new positions [1..M], velocities [1..M], charges and masses [0..M], fields [0..M] (elec, magn), uend (pos, vel, q, m) *)
   Definition run_rkn : list Qc :=
     let r := run_rkn_state in
     let cs := fun (v : nat -> Qc) => map v (seq 0 d) in
     let e := rkn_end_point (k_M C) r in
+    let ea := rkn_end_attr (k_M C) r in
     flat_map (fun m => cs (rp r m)) (seq 1 (k_M C)) ++ flat_map (fun m => cs (rv r m)) (seq 1 (k_M C))
+    ++ flat_map (fun m => cs (aq (ra r m)) ++ cs (am (ra r m))) (seq 0 (S (k_M C)))
     ++ flat_map (fun m => cs (elec (rf r m)) ++ cs (magn (rf r m))) (seq 0 (S (k_M C)))
-    ++ cs (fst e) ++ cs (snd e).
+    ++ cs (fst e) ++ cs (snd e) ++ cs (aq ea) ++ cs (am ea).
 End RunRKN.
 
 Definition check_rkn_case (ce : rkncase * list Qc) : Z :=
